@@ -114,6 +114,29 @@ theorem pep440_cmp_totalPre : TotalPre Pep440.cmp :=
 theorem pep440_projection_monotone (a b : Pep440.Ver) :
     Pep440.cmp a b = Version.cmp (Pep440.project a) (Pep440.project b) := rfl
 
+/-- Print-parse: for every version `v` that `Parse` can return, parsing
+    `v.String()` succeeds and gives back `v` itself (so in particular a
+    version that compares equal to `v`).  Covers every epoch, any number of
+    release components, every pre/post/dev combination and all int64 values. -/
+theorem pep440_print_parse (s : List Char) (v : Pep440.Ver) (h : Pep440.parse s = some v) :
+    Pep440.parse (Pep440.toStr v) = some v :=
+  Pep440.print_parse v (Pep440.parse_wf h)
+
+/-- … hence the reparsed version compares equal to the original. -/
+theorem pep440_print_parse_equal (s : List Char) (v : Pep440.Ver) (h : Pep440.parse s = some v) :
+    ∃ v', Pep440.parse (Pep440.toStr v) = some v' ∧ Pep440.cmp v v' = .eq :=
+  ⟨v, pep440_print_parse s v h, keyCmp_totalPre Version.cmp_totalPre Pep440.project |>.refl v⟩
+
+/-- The same for any well-formed value, parsed or constructed: non-negative
+    int64 fields, at least one release number, label one of "", a, b, rc, and
+    no pre-release number without a label (`Pep440.WF`). -/
+theorem pep440_print_parse_wf (v : Pep440.Ver) (h : Pep440.WF v) : Pep440.parse (Pep440.toStr v) = some v :=
+  Pep440.print_parse v h
+
+/-- `WF` is satisfiable, e.g. by 1!2.3a5.post6.dev7. -/
+example : Pep440.WF { epoch := 1, release := [2, 3], label := ['a'], preN := 5, post := 6, dev := 7 } :=
+  ⟨by decide, by decide, by decide, by simp [Pep440.ValidLabel], by decide, by simp, by decide, by decide⟩
+
 /-- Equal PEP 440 versions are interchangeable. -/
 theorem pep440_equal_interchangeable (a b x : Pep440.Ver) (h : Pep440.cmp a b = .eq) :
     Pep440.cmp a x = Pep440.cmp b x ∧ Pep440.cmp x a = Pep440.cmp x b :=
